@@ -70,6 +70,8 @@ class ProgGen:
             p_sub_count=0.5,
             macro_sub=False,
             p_twin=0.0,
+            p_overlap=0.0,
+            p_idle=0.25,
         )
         unknown = set(kw) - set(p)
         if unknown:
@@ -255,6 +257,8 @@ class ProgGen:
         """A native gate statement acting on a subset of `qubits` (physical indices)."""
         rng = self.rng
         names = [n for n in gateset_sig.GATES if gateset_sig.nq(n) <= len(qubits)]
+        if rng.random() > self.p["p_idle"]:
+            names = [n for n in names if not n.startswith("I_")]
         name = rng.choice(names)
         sig = gateset_sig.GATES[name]
         k = gateset_sig.nq(name)
@@ -632,6 +636,9 @@ class ExecGen(ProgGen):
                     break
                 take = rng.randint(1, min(len(left), 3))
                 mine, left = left[:take], left[take:]
+                if self.p["p_overlap"] and rng.random() < self.p["p_overlap"]:
+                    # hostile: let this branch also reach qubits given to other branches
+                    mine = mine + [q for q in avail if q not in mine][: rng.randint(1, 2)]
                 if depth < self.p["max_depth"] and rng.random() < 0.35:
                     st, u = self.exec_block("sequential_block", mine, depth + 1)
                 else:
